@@ -46,11 +46,22 @@ def run(ctx):
                         acts.append({'a': 'respond', 'i': h.wire[0][0], 'd': 'DOk'})
                         h.do(acts[-1])
                         busy = True
+            if rng.random() < 0.3 and not h.conn.is_closed:
+                # the only traffic of the interval may be a server-pushed EVENT frame (stream -1), through the real process_msg
+                acts.append({'a': 'push_event'})
+                h.do(acts[-1])
+                ctx.count('traffic', 'pushed-event-only' if not busy else 'responses+event')
             reply = rng.choices(['supported', 'error', 'silent'], [6, 1, 1])[0]
             c = h.conn
-            pre = {'in_flight': c.in_flight, 'free': sorted(c.request_ids), 'dead': bool(c.is_defunct or c.is_closed), 'idle': bool(c.is_idle),
+            # "idle" is decided by the harness from the frames it fed since the last round, NOT by reading the connection's own flag
+            pre = {'in_flight': c.in_flight, 'free': sorted(c.request_ids), 'dead': bool(c.is_defunct or c.is_closed), 'idle': not h.traffic,
+                   'flag_idle': bool(c.is_idle),
                    'nev': len(h.events), 'cap': c.in_flight >= c.__dict__['_mri_real'], 'has': h.pool_has_conn()}
             acts.append({'a': 'hb_round', 'reply': reply})
+            if reply == 'supported' and rng.random() < 0.4:
+                tok += 1
+                acts[-1]['race_borrow'] = tok    # a borrower's locked in_flight += 1 tries to run inside run()'s `in_flight -= 1`
+            raced0, held0 = h.hb_race_ran, len(h.held)
             if not pre['has']:
                 acts.pop()
                 break
@@ -69,7 +80,11 @@ def run(ctx):
                     ctx.violation('dead-owner-not-notified', 'owner not told about a defunct/closed connection', case=case, theorem='C44_owner_notified')
             elif not pre['idle']:
                 if sent:
-                    ctx.violation('busy-got-heartbeat', 'heartbeat sent on a connection that received traffic', case=case, theorem='C44_busy_skipped')
+                    ev_only = acts[-2]['a'] == 'push_event' and (len(acts) < 3 or acts[-3]['a'] != 'respond')
+                    ctx.violation('busy-got-heartbeat' + ('.pushed-event' if acts[-2]['a'] == 'push_event' else ''),
+                                  'heartbeat sent on a connection that received traffic during the interval (%s); its own idle flag said idle=%s'
+                                  % ('a server-pushed EVENT frame' if acts[-2]['a'] == 'push_event' else 'responses', pre['flag_idle']),
+                                  case=case, theorem='C44_busy_skipped / C44_pushed_event_is_traffic')
                 if not c.is_idle:
                     ctx.violation('busy-idle-flag-not-reset', 'idle flag not reset after the skipped round', case=case, theorem='C44_busy_skipped')
             elif pre['cap']:
@@ -78,7 +93,15 @@ def run(ctx):
                 if not sent:
                     ctx.violation('idle-no-heartbeat', 'idle connection got no heartbeat', case=case, theorem='C44_idle_get_heartbeat')
                 if reply == 'supported':
-                    if c.in_flight != pre['in_flight'] or (sorted(c.request_ids) != pre['free'] and pre['free']) or c.is_defunct:
+                    borrowed = len(h.held) - held0
+                    if h.hb_race_ran > raced0 and c.in_flight != pre['in_flight'] + borrowed:
+                        ctx.violation('capacity-changed.lost-update', 'schedule: heartbeat thread reads in_flight=%d for its `in_flight -= 1` WITHOUT the lock; a borrower '
+                                      'runs borrow_connection (locked in_flight += 1, id %r); heartbeat thread writes %d: in_flight=%d but %d ids are in use'
+                                      % (pre['in_flight'] + 1, sorted(h.held.values()), pre['in_flight'], c.in_flight, pre['in_flight'] + borrowed),
+                                      case=case, kind='interleaving', theorem='C44_capacity_preserved_instances / lock audit')
+                    elif borrowed:
+                        pass
+                    elif c.in_flight != pre['in_flight'] or (sorted(c.request_ids) != pre['free'] and pre['free']) or c.is_defunct:
                         ctx.violation('capacity-changed', 'successful heartbeat changed capacity: in_flight %d -> %d, free %r -> %r, defunct=%s'
                                       % (pre['in_flight'], c.in_flight, pre['free'], sorted(c.request_ids), c.is_defunct), case=case,
                                       theorem='C44_capacity_preserved_instances')
@@ -91,17 +114,85 @@ def run(ctx):
         ctx.case([cfg, acts], nontrivial=rounds >= 2, sample={'cfg': cfg, 'actions': acts[:8], 'model_ops': conn_corr.all_ops(h)[:16]})
         for p in h.problems:
             ctx.disagreement('harness-problem', p[:300], case={'cfg': cfg, 'actions': acts})
+    # several holders in ONE round (one real connection + real HostConnection owner each): WHICH owner hears about a failed heartbeat
+    import itertools
+    perms = list(itertools.permutations(['silent', 'error', 'supported'])) + [('silent', 'supported', 'supported'), ('supported', 'error', 'supported', 'supported')]
+    for replies in perms:
+        for pre_traffic in (False, True):
+            cfgs = [dict(n_init=2, max_in_flight=4, thr=2) for _ in replies]
+            group = [conn_impl.Harness(**c) for c in cfgs]
+            gacts = [[] for _ in replies]
+            if pre_traffic:
+                for k, g in enumerate(group):
+                    a = {'a': 'query', 'r': 1, 'in_cb': [{'a': 'return'}]}
+                    g.do(a)
+                    gacts[k].append(a)
+                    g.traffic = False
+            conn_hb.run_round(group, list(replies))
+            for k, g in enumerate(group):
+                g.checkpoint()
+                told = len([e for e in g.events if e == [12]])
+                case = {'holders': list(replies), 'pre_traffic': pre_traffic, 'holder': k}
+                ctx.case(['holders', list(replies), pre_traffic, k], nontrivial=True,
+                         sample={'holders': list(replies), 'holder': k, 'defunct': g.conn.is_defunct, 'owner_notified': told,
+                                 'shutdown_on_error': g.pool.shutdown_on_error})
+                ctx.count('round', 'multi-holder-' + replies[k])
+                if replies[k] in ('silent', 'error'):
+                    if not g.conn.is_defunct:
+                        ctx.violation('failed-heartbeat-not-defunct', 'holder %d (%s) of %r: connection not defunct' % (k, replies[k], replies), case=case,
+                                      theorem='C44_failed_defunct')
+                    if told != 1 or not g.pool.shutdown_on_error:
+                        others = [j for j, o in enumerate(group) if j != k and (len([e for e in o.events if e == [12]]) > (1 if replies[j] != 'supported' else 0))]
+                        ctx.violation('failed-heartbeat.wrong-owner-notified', 'holders %r: the heartbeat of holder %d failed (%s) but ITS owner got %d return_connection calls '
+                                      '(shutdown_on_error=%s); notified instead: holders %r' % (list(replies), k, replies[k], told, g.pool.shutdown_on_error, others),
+                                      case=case, theorem='C44_owner_notified')
+                else:
+                    if told or g.pool.shutdown_on_error or g.conn.is_defunct:
+                        ctx.violation('healthy-owner-notified', 'holders %r: holder %d answered SUPPORTED but its owner was told about a failure (%d calls, shutdown_on_error=%s)'
+                                      % (list(replies), k, told, g.pool.shutdown_on_error), case=case, theorem='C44_capacity_preserved_instances')
+                if not g.problems:
+                    hs.append(('holders', cfgs[k], gacts[k], g))
     ctx.exhaustive = False
     ctx.rule = '1-5 heartbeat rounds per connection with random traffic in between and replies supported/error/silent; non-trivial = at least 2 rounds'
     conn_check.compare_with_model(ctx, hs, 'C44')
 
 
+def key_is_busy(rp):
+    return (rp.get('key') or '').startswith('busy-got-heartbeat')
+
+
 def replay(ctx, rp):
     case = rp.get('case') or {}
+    if case.get('holders'):
+        group = [conn_impl.Harness(n_init=2, max_in_flight=4, thr=2) for _ in case['holders']]
+        conn_hb.run_round(group, list(case['holders']))
+        bad = False
+        for k, g in enumerate(group):
+            told = len([e for e in g.events if e == [12]])
+            print('holder %d reply=%s defunct=%s owner notified=%d shutdown_on_error=%s' % (k, case['holders'][k], g.conn.is_defunct, told, g.pool.shutdown_on_error))
+            exp = 1 if case['holders'][k] != 'supported' else 0
+            bad = bad or told != exp or g.pool.shutdown_on_error != bool(exp) or g.conn.is_defunct != bool(exp)
+        print(('VIOLATION property=C44 replay=%s' % ctx.replay_path) if bad else 'not reproduced')
+        return 1 if bad else 0
     if not case.get('actions'):
         print('nothing to replay: %s' % rp.get('theorem'))
         return 1
     h = conn_corr.run_history(case['cfg'], case['actions'])
+    if (rp.get('key') or '').endswith('lost-update'):
+        ids = len(h.held) + len(h.conn.__dict__['_requests_real']) + len(h.conn.orphaned_request_ids)
+        bad = h.hb_race_ran > 0 and h.conn.in_flight != ids
+        print('interleaved borrowers: %d, in_flight=%d, ids in use=%d' % (h.hb_race_ran, h.conn.in_flight, ids))
+        print(('VIOLATION property=C44 replay=%s' % ctx.replay_path) if bad else 'not reproduced')
+        return 1 if bad else 0
+    if key_is_busy(rp):
+        h0 = conn_corr.run_history(case['cfg'], case['actions'][:-1])
+        traffic, n0 = h0.traffic, len(h0.events)
+        h0.do(case['actions'][-1])
+        sent = [e for e in h0.events[n0:] if e[0] == 0 and e[2] >= 1000]
+        print('traffic since the previous round: %s (last frame action: %s); heartbeats sent in the round: %d' % (traffic, case['actions'][-2]['a'], len(sent)))
+        bad = bool(traffic and sent)
+        print(('VIOLATION property=C44 replay=%s' % ctx.replay_path) if bad else 'not reproduced')
+        return 1 if bad else 0
     for ops, sn in h.points[-8:]:
         print(ops, {k: v for k, v in sn.items() if k != 'events'})
     key = rp.get('key') or ''
